@@ -79,9 +79,9 @@ def matrix(text):
 def tokenize(d):
     ic = d["instance_config"]
     inst = ic["instance"]
-    if any(k in inst for k in ("time_behavior",)) and inst.get("time_behavior") not in (None, "static"):
-        # (silently ignored by the implementation for operation durations - kept deterministic)
-        pass
+    if inst.get("time_behavior") not in (None, "static"):
+        # stochastic processing times (honoured since fix 3d58c3e): outside the compiler model, which is deterministic
+        raise Unsupported("stochastic processing times")
     jobs = []
     for line in inst["specification"].split("\n"):
         l = line.replace(" ", "")
